@@ -23,9 +23,9 @@ func init() {
 			"Not decided: exactness of results under concurrency, the 64-query limit, races on component data (the user's responsibility per the documentation).",
 		TrustedBase: []string{"go/types, go/cfg", "sync.Mutex Lock/Unlock semantics", "ownership classification stated in the rule", "frozen benign entry: first-time registration of a component type from Rel[C] inside Query panics two statements later"},
 		Rules: []Rule{
-			{ID: "C13/R1", Run: c13r1, Min: 3},
+			{ID: "C13/R1", Run: c13r1, Min: 1},
 			{ID: "C13/R2", Run: func(c *core.Ctx) { c07r2r3(c); c07r4(c); c07r5(c) }, Min: 10},
-			{ID: "C13/R3", Run: c13r3, Min: 10},
+			{ID: "C13/R3", Run: c13r3, Min: 1},
 		},
 	})
 }
